@@ -301,6 +301,7 @@ def track_unit():
     src = py2lean.Source(_repo('collections.py'))
     T = 'Track'
     insts = [
+        Inst(f'{T}.__init__', 'init', [('self', 'None'), ('geoshapes', 'List GV.Coll.Shape')], 'Except GV.Coll'),
         Inst(f'{T}.__getitem__', 'getitem', [('self', 'GV.Coll'), ('val', 'Slice')], 'Except GV.Coll'),
         Inst(f'{T}.has_duplicate_timestamps', 'hasDup', [('self', 'GV.Coll')], 'Bool'),
     ]
@@ -321,16 +322,38 @@ def track_unit():
     def local_type(qual, name):
         return {('Track.has_duplicate_timestamps', '_ts'): 'Set Opt TI'}.get((qual, name))
 
+    def sorted_hook(tr, e):
+        # `sorted(xs, key=lambda x: x.start)`: Python's sort is stable, so is the model's merge sort by start
+        import ast as _ast
+        ok = (len(e.args) == 1 and len(e.keywords) == 1 and e.keywords[0].arg == 'key' and isinstance(e.keywords[0].value, _ast.Lambda)
+              and _ast.unparse(e.keywords[0].value) == 'lambda x: x.start')
+        xs = tr.expr(e.args[0]) if ok else None
+        if not ok or xs.typ != 'List GV.Coll.Shape':
+            raise Unsupported(f'`{_ast.unparse(e)[:80]}`: only `sorted(<shapes>, key=lambda x: x.start)` is read as sortByStart')
+        return Val(f'(GV.Coll.sortByStart {xs.text})', xs.typ)
+
+    def super_init(tr, vals):
+        # CollectionBase.__init__ (pinned) stores its argument as `geoshapes`
+        if len(vals) != 1 or vals[0].typ != 'List GV.Coll.Shape':
+            raise Unsupported('super().__init__ of a Track with other arguments')
+        tr.fields['geoshapes'] = vals[0]
+
+    def init_hook(tr, fields):
+        if set(fields) != {'geoshapes'}:
+            raise Unsupported(f'Track.__init__ stores fields {sorted(fields)}')
+        return f'⟨.track, {fields["geoshapes"].text}⟩'
+
     attr = {('GV.Coll', 'geoshapes'): ('{}.shapes', 'List GV.Coll.Shape'),
             ('GV.Coll.Shape', 'dt'): ('{}.dt', 'Opt TI'), ('GV.Coll.Shape', 'start'): ('{}.startD', 'Dt'),
             ('GV.Coll.Shape', 'end'): ('{}.endD', 'Dt'),
             ('Slice', 'start'): ('a', 'Opt Dt'), ('Slice', 'stop'): ('b', 'Opt Dt')}
     return Unit('SrcTrack', src, 'GV.Src.Track', ['GeoVerif.Model.Track', 'GeoVerif.Model.PyPrelude'], insts,
                 {'GV.Coll': T}, attr_types=attr,
-                pins={k: PINS[k] for k in ('utils/functions.py::default_to_zulu', 'collections.py::Track.__init__',
-                                           'collections.py::CollectionBase.__init__')},
+                pins={k: PINS[k] for k in ('utils/functions.py::default_to_zulu', 'collections.py::CollectionBase.__init__')},
                 intrinsics={'default_to_zulu': zulu, 'Track': track_ctor},
-                hooks={'isinstance': lambda typ: None, 'always_truthy': ('TI', 'Dt'), 'local_type': local_type},
+                hooks={'isinstance': lambda typ: None, 'always_truthy': ('TI', 'Dt'), 'local_type': local_type,
+                       'sorted': sorted_hook, 'super_init': super_init, 'init': init_hook,
+                       'keywords': lambda tr, e: getattr(e.func, 'id', None) == 'sorted'},
                 ctx_params=[('a', 'Option Int'), ('b', 'Option Int')])
 
 
